@@ -341,9 +341,9 @@ Proof.
   pose proof (Qabs_nonneg x) as Hx.
   assert (F1 : inject_Z (Qfloor (Qabs x * 4096)) <= Qabs x * 4096) by apply Qfloor_le.
   assert (F0 : 0 <= inject_Z (Qfloor (Qabs x * 4096))).
-  { change 0 with (inject_Z 0). rewrite <- Zle_Qle. apply Qfloor_resp_le with (x := 0) (y := Qabs x * 4096) in Hx0 || idtac.
-    assert (0 <= Qabs x * 4096) by nra.
-    pose proof (Qfloor_resp_le 0 (Qabs x * 4096) H) as HF. exact HF. }
+  { assert (H : 0 <= Qabs x * 4096) by nra.
+    pose proof (Qfloor_resp_le 0 (Qabs x * 4096) H) as HF.
+    change 0 with (inject_Z 0). rewrite <- Zle_Qle. exact HF. }
   rewrite Qabs_Qmult.
   assert (E : Qabs (if Qle_bool 0 x then 1 else -1) == 1) by (destruct (Qle_bool 0 x); reflexivity).
   rewrite E. rewrite Qabs_pos.
